@@ -235,8 +235,9 @@ Example C13_block_exact_nonvacuous :
   = [(0, 1, 2, 0); (2, 3, 1, 0)]%Z.
 Proof.
   cbv zeta. split; [|split].
-  - repeat (constructor; try (vm_compute; reflexivity)).
-  - vm_compute. repeat (constructor; try reflexivity).
+  - repeat (first [apply Forall_nil | apply Forall_cons]); vm_compute; reflexivity.
+  - match goal with |- Forall ?P ?l => let l' := eval vm_compute in l in change (Forall P l') end.
+    repeat (first [apply Forall_nil | apply Forall_cons]); vm_compute; reflexivity.
   - vm_compute. reflexivity.
 Qed.
 
